@@ -4,6 +4,8 @@ pub mod engine;
 pub mod frontend;
 pub mod logging;
 pub mod shared;
+#[cfg(feature = "verif")]
+pub mod verif;
 
 #[cfg(test)]
 #[path = "../tests/helpers/mod.rs"]
